@@ -41,6 +41,26 @@ class VPerson(Symbol):
 
 
 @dataclass
+class VQuietCompany(VCompany):
+    """a company whose truth value is False (like an empty container)"""
+
+    def __bool__(self):
+        return False
+
+    def __hash__(self):
+        return hash(self.name)
+
+
+@dataclass
+class VQuietPerson(VPerson):
+    def __bool__(self):
+        return False
+
+    def __hash__(self):
+        return hash(self.name)
+
+
+@dataclass
 class VCEO(Role[VPerson], Symbol):
     person: VPerson
     head_of: VCompany = None
